@@ -557,7 +557,7 @@ class C07Rules(FoldRules):
                 ctx.ob("R-C07-4b", f"resolve.{fn.name}/return", False, "id resolver may return only the previous resolution or None", node=p.exit_node, mod=self.m)
                 continue
             n_ret_last += 1
-            tested_last = any(ev[0] == "cond" and isinstance(ev[1], ast.Name) and ev[1].id == lastp and ev[2] for ev in p.events)
+            tested_last = any(ev[0] == "cond" and presence_test(ev[1], ev[2]) == (lastp, True) for ev in p.events)
             val_false = None
             for ev in p.events:
                 if ev[0] == "cond" and isinstance(ev[1], ast.Call) and isinstance(ev[1].func, ast.Name) and self.repo.func(f"resolve.{ev[1].func.id}") is not None:
@@ -577,6 +577,13 @@ class C07Rules(FoldRules):
         if ante and resp:
             roots = self._expand(fn, ante[0])
             okante = f"{resp}[{lastp}][0]" in roots
+            if not okante:
+                # the same through a local that holds the group: `prev = RES.get(last)` / `RES[last]` ... `prev[0]`
+                import re as _re2
+                for m_ in _re2.finditer(r"(\w+)\[0\]", roots):
+                    if f"<= {resp}.get({lastp})" in self._expand(fn, ast.Name(id=m_.group(1), ctx=ast.Load())) or \
+                            f"<= {resp}[{lastp}]" in self._expand(fn, ast.Name(id=m_.group(1), ctx=ast.Load())):
+                        okante = True
         ctx.ob("R-C07-4b", f"resolve.{fn.name}/antecedent", okante,
                "the pin cite must be validated against the first (full) citation of the previous resolution's group",
                node=validator, mod=self.m)
